@@ -155,19 +155,33 @@ fn toa_monotone() {
 #[kani::proof]
 #[kani::unwind(8)]
 fn symbol_conversions() {
-    let (sf, bw) = (any_sf(), any_bw());
-    let p = BaseBandModulationParams::new(sf, bw, CodingRate::_4_5);
-    // reference in u32: every intermediate value fits (8189 * 524_455 < 2^32, 65_535 * 1000 < 2^32)
-    let t = ref_tsym(sf, bw) as u32;
     let symbols: u32 = kani::any();
     kani::assume(symbols <= 8189);
-    assert!(p.symbols_to_ms(symbols) == t * symbols / 1000, "C16: symbols_to_ms");
     let ms: u32 = kani::any();
     kani::assume(ms <= 65_535);
-    let want = ms * 1000 / t;
-    if want <= 65_535 {
-        assert!(p.delay_in_symbols(ms) as u32 == want, "C16: delay_in_symbols");
+    // (SF, BW) is enumerated concretely (80 instances) so that every division in the code under
+    // test has a constant divisor; the oracle states floor division by its defining inequalities
+    macro_rules! one {
+        ($sf:ident, $bw:ident) => {{
+            let p = BaseBandModulationParams::new(SpreadingFactor::$sf, Bandwidth::$bw, CodingRate::_4_5);
+            let t = ref_tsym(SpreadingFactor::$sf, Bandwidth::$bw) as u64;
+            let r = p.symbols_to_ms(symbols) as u64;
+            let prod = t * symbols as u64;
+            assert!(r * 1000 <= prod && prod < (r + 1) * 1000, "C16: symbols_to_ms");
+            let us = ms as u64 * 1000;
+            if us < 65_536 * t {
+                let q = p.delay_in_symbols(ms) as u64;
+                assert!(q * t <= us && us < (q + 1) * t, "C16: delay_in_symbols");
+            }
+        }};
     }
+    macro_rules! all_bw {
+        ($sf:ident) => {
+            one!($sf, _7KHz); one!($sf, _10KHz); one!($sf, _15KHz); one!($sf, _20KHz); one!($sf, _31KHz);
+            one!($sf, _41KHz); one!($sf, _62KHz); one!($sf, _125KHz); one!($sf, _250KHz); one!($sf, _500KHz);
+        };
+    }
+    all_bw!(_5); all_bw!(_6); all_bw!(_7); all_bw!(_8); all_bw!(_9); all_bw!(_10); all_bw!(_11); all_bw!(_12);
 }
 
 //@h id=ldro_rule_modulation props=C15 tier=quick build=mod cost=5 timeout=300
